@@ -81,7 +81,7 @@ func refRoute(routes []c06Route, p c06Pkt) int {
 	nsIn := func(p c06Pkt, list []string) bool {
 		if p.Kind == "iq" && p.Payload != "" {
 			for _, x := range list {
-				if strings.ToLower(x) == p.Payload {
+				if strings.EqualFold(x, p.Payload) {
 					return true
 				}
 			}
@@ -120,7 +120,7 @@ func runC06(e *Engine, g G, o RunOpt) RunInfo {
 	sc.Deferred = g.Pct("deferred-build", 25)
 	nr := g.Range("nroutes", 0, 6)
 	typePool := []string{"chat", "normal", "groupchat", "headline", "error", "get", "set", "result", "unavailable", "subscribe", "Chat", "GET"}
-	nsPool := []string{nsVersion, nsDiscoInfo, nsDiscoItems, "urn:xmpp:ping", "x:y", nsCommands, nsPubSub, nsRoster}
+	nsPool := []string{nsVersion, nsDiscoInfo, nsDiscoItems, "urn:xmpp:ping", "x:y", nsCommands, nsPubSub, nsRoster, "urn:example:MyApp"}
 	for i := 0; i < nr; i++ {
 		var r c06Route
 		if g.Pct("catchall", 15) {
@@ -183,7 +183,10 @@ func runC06(e *Engine, g G, o RunOpt) RunInfo {
 		case 2:
 			t := []string{"get", "set", "result", "error"}[g.Weighted("it", 4, 3, 2, 1)]
 			pl, ns := "", ""
-			switch g.N("ipl", 9) {
+			switch g.N("ipl", 10) {
+			case 9:
+				// a namespace is any URI: this one has capitals, and the route configured with it is its route
+				pl, ns = "<q xmlns='urn:example:MyApp'/>", "urn:example:MyApp"
 			case 6:
 				// payloads with a decoder of their own
 				pl, ns = "<command xmlns='"+nsCommands+"' node='list' action='execute'/>", nsCommands
